@@ -131,3 +131,28 @@ theorem operations_on_other_collections_do_not_interfere (op op2 : Op) (hop : Op
   run_isolation likeFn fnFam op op2 hop hop2 s σ hcl hw hr hdet hdet2 c' h h2
 
 end CV.Props.C13
+
+-- SOURCE-TEXT-BEGIN (generated by tools/mk_source_theorems.py; do not edit by hand)
+namespace CV.Props.C13
+
+/-- (facts, regenerated from the source on every run) **The source text the model transcribes is the text of the
+    current source**: the bodies (comments and layout removed) of the 12 functions the model behind C13 was written from and
+    validated against.  Any edit of one of them breaks this theorem at build time; the check then searches with the
+    property's own oracles for a failing input, and reports `no-failing-input-found` if it finds none: the model then
+    has to be re-validated against the new text (and this block regenerated). -/
+theorem source_decision_logic : CV.Facts.logicC13 = [
+  "clover..iteratePrefix: { cursor, err := tx.Cursor(true) if err != nil { return err } defer cursor.Close() if err := cursor.Seek(prefix); err != nil { return err } for ; cursor.Valid(); cursor.Next() { item, err := cursor.Item() if err != nil { return err } if !bytes.HasPrefix(item.Key, prefix) { return nil } err = itemConsumer(item) if errors.Is(err, internal.ErrStopIteration) { return nil } if err != nil { return err } } return nil }", 
+  "clover.DB.CreateCollection: { tx, err := db.store.Begin(true) if err != nil { return err } defer tx.Rollback() if err := db.createCollection(tx, name); err != nil { return err } return tx.Commit() }", 
+  "clover.DB.CreateCollectionByQuery: { q, err := normalizeCriteria(q) if err != nil { return err } return db.createCollectionWith(name, func(tx store.Tx) ([]*d.Document, error) { docs := make([]*d.Document, 0) err := db.iterateDocs(tx, q, func(doc *d.Document) error { docs = append(docs, doc) return nil }) return docs, err }) }", 
+  "clover.DB.DropCollection: { tx, err := db.store.Begin(true) if err != nil { return err } defer tx.Rollback() if err := db.deleteAll(tx, name); err != nil { return err } if err := tx.Delete([]byte(getCollectionKey(name))); err != nil { return err } return tx.Commit() }", 
+  "clover.DB.HasCollection: { txn, err := db.store.Begin(false) if err != nil { return false, err } defer txn.Rollback() return db.hasCollection(name, txn) }", 
+  "clover.DB.ListCollections: { tx, err := db.store.Begin(true) if err != nil { return nil, err } defer tx.Rollback() collections := make([]string, 0) prefix := []byte(getCollectionKeyPrefix()) err = iteratePrefix(prefix, tx, func(item store.Item) error { collectionName := string(bytes.TrimPrefix(item.Key, prefix)) collections = append(collections, collectionName) return nil }) return collections, err }", 
+  "clover.DB.createCollection: { ok, err := db.hasCollection(name, tx) if err != nil { return err } if ok { return ErrCollectionExist } meta := &collectionMetadata{Size: 0} return db.saveCollectionMetadata(name, meta, tx) }", 
+  "clover.DB.createCollectionWith: { tx, err := db.store.Begin(true) if err != nil { return err } defer tx.Rollback() if err := db.createCollection(tx, name); err != nil { return err } docs, err := getDocs(tx) if err != nil { return err } assignObjectIds(docs) if err := db.insertDocs(tx, name, docs); err != nil { return err } return tx.Commit() }", 
+  "clover.DB.deleteAll: { return db.replaceDocs(tx, query.NewQuery(collName), func(_ *d.Document) *d.Document { return nil }) }", 
+  "clover.DB.getCollectionMeta: { value, err := tx.Get([]byte(getCollectionKey(collection))) if err != nil { return nil, err } if value == nil { return nil, ErrCollectionNotExist } m := &collectionMetadata{} err = json.Unmarshal(value, m) return m, err }", 
+  "clover.DB.hasCollection: { value, err := tx.Get([]byte(getCollectionKey(name))) return value != nil, err }", 
+  "clover.DB.saveCollectionMetadata: { rawMeta, err := json.Marshal(meta) if err != nil { return err } return tx.Set([]byte(getCollectionKey(collection)), rawMeta) }"] := by rfl
+
+end CV.Props.C13
+-- SOURCE-TEXT-END
